@@ -7,6 +7,14 @@
 // server in a later block whose time lies in [now-3s, now+latency]. The signaller's view of the chain is served
 // by the real feeds gRPC query server on ch.Ctx().
 //
+// Governance may change the feeds module params in the middle of a history (Gov): a real MsgUpdateParams
+// (authority = gov module address) travels through a real proposal (submit tx, yes votes, execution by gov's end
+// blocker once the voting period is over), with price moves / status flips scheduled relative to the step at which
+// the new params become visible. Every oracle reads the chain's CURRENT params; the daemon polls the params at the
+// start of every tick (Start -> updateInternalVariables -> updateParams, before execute decides), so the first tick
+// after the block that carried the change must honour it. Only a submission that was decided BEFORE that tick and
+// lands after the change may be refused as too early (class "submission-raced-with-param-change").
+//
 // Part B (submit_test.go, TestC20Submit): bookkeeping of the real submitter (pending set, idle key pool).
 package c20
 
@@ -24,6 +32,7 @@ import (
 	"pgregory.net/rapid"
 
 	sdk "github.com/cosmos/cosmos-sdk/types"
+	govv1 "github.com/cosmos/cosmos-sdk/x/gov/types/v1"
 
 	bothan "github.com/bandprotocol/bothan/bothan-api/client/go-client/proto/bothan/v1"
 
@@ -87,6 +96,18 @@ type evt struct {
 	Set   []int  `json:"set,omitempty"` // vote: power factor per signal (0 = not voted)
 }
 
+// govChange is one governance change of the feeds params. Zero fields keep the current value.
+type govChange struct {
+	At       int   `json:"at"`                 // step at which the proposal is handed in (next block)
+	Cooldown int64 `json:"cooldown,omitempty"` // new CooldownTime
+	Grace    int64 `json:"grace,omitempty"`    // new GracePeriod
+	MaxMul   int64 `json:"max_mul,omitempty"`  // new MaxInterval = MinInterval * MaxMul (feed intervals follow at the next feed update)
+	MinDev   int64 `json:"min_dev,omitempty"`  // new MinDeviationBasisPoint
+	DevMul   int64 `json:"dev_mul,omitempty"`  // new MaxDeviationBasisPoint = (new or current) MinDev * DevMul
+	Quorum   int   `json:"quorum,omitempty"`   // new PriceQuorum: 1 "0.30", 2 "0.5", 3 "1"
+	Follow   []evt `json:"follow,omitempty"`   // events; At = offset in steps from the first step that sees the new params
+}
+
 type loopCase struct {
 	NVals    int       `json:"nvals"`
 	ValIdx   int       `json:"val"`
@@ -106,6 +127,7 @@ type loopCase struct {
 	BlockPat []int     `json:"block_pat"` // steps between two blocks (cyclic), each 1..3
 	OffPat   []int     `json:"off_pat"`   // block time - step time in ms (cyclic), each in [-3000, 900]
 	SubPat   []int     `json:"sub_pat"`   // per submission (cyclic): 0..2 lands after that many steps; -1 fails at once; -2,-3 lost, released after 1,2 steps
+	Gov      []govChange `json:"gov,omitempty"` // governance changes of the feeds params, one proposal at a time, in order of At
 }
 
 func genPrice(rt *rapid.T) uint64 {
@@ -224,7 +246,106 @@ func genLoop(rt *rapid.T) loopCase {
 	if c.SubPat[0] < 0 {
 		c.SubPat[0] = 0 // at least one entry of the cycle gets through
 	}
+	genGov(rt, &c)
 	return c
+}
+
+const govVoting = 4 * time.Second // voting period of the generated chains
+
+// genGov draws the governance changes of the feeds params. Half of the cases have none. A cooldown raise is followed
+// by a burst of threshold moves / status flips on all signals, so that right after the change some signal has a reason
+// to be submitted that the old cooldown would allow and the new one does not.
+func genGov(rt *rapid.T, c *loopCase) {
+	if !gen.Chance(rt, "gov", 11, 20) {
+		return
+	}
+	n := len(c.Sigs)
+	cur := c.Cooldown
+	maxCd := c.MinI - 10
+	at := 0
+	for g, ng := 0, gen.OneOf(rt, "ngov", 1, 1, 1, 2, 2, 3); g < ng; g++ {
+		lo := at + 15
+		hi := c.Steps - 40
+		if lo > hi {
+			break
+		}
+		ch := govChange{At: gen.Range(rt, "gat", lo, hi)}
+		at = ch.At + 25
+		kind := gen.Pick(rt, "gkind", 50, 20, 8, 8, 8, 6)
+		if kind == 0 && cur+1 > maxCd {
+			kind = 1
+		}
+		if kind == 1 && cur <= 1 {
+			kind = 0
+		}
+		raise := false
+		switch kind {
+		case 0: // cooldown up
+			switch gen.Pick(rt, "upk", 20, 25, 55) {
+			case 0:
+				ch.Cooldown = cur + int64(gen.OneOf(rt, "upsmall", 1, 3, 4, 5))
+			case 1:
+				ch.Cooldown = maxCd
+			default:
+				ch.Cooldown = int64(gen.Range(rt, "upto", int(cur+1), int(maxCd)))
+			}
+			if ch.Cooldown > maxCd {
+				ch.Cooldown = maxCd
+			}
+			raise = true
+		case 1: // cooldown down
+			ch.Cooldown = int64(gen.Range(rt, "downto", 1, int(cur-1)))
+			if gen.Chance(rt, "downsmall", 1, 4) {
+				ch.Cooldown = cur - int64(gen.OneOf(rt, "downby", 1, 3, 4))
+				if ch.Cooldown < 1 {
+					ch.Cooldown = 1
+				}
+			}
+		case 2:
+			ch.Grace = gen.OneOf[int64](rt, "ggrace", 10, 15, 30, 60)
+		case 3:
+			ch.MaxMul = gen.OneOf[int64](rt, "gmaxmul", 1, 2, 3, 5, 10)
+		case 4:
+			ch.MinDev = gen.OneOf[int64](rt, "gmindev", 1, 5, 50, 100)
+			ch.DevMul = gen.OneOf[int64](rt, "gdevmul", 1, 2, 6, 30)
+		default:
+			ch.Quorum = gen.Range(rt, "gquorum", 1, 3)
+		}
+		if kind >= 2 && gen.Chance(rt, "alsocd", 1, 3) && cur+4 <= maxCd { // several fields in one proposal
+			ch.Cooldown = int64(gen.Range(rt, "alsoto", int(cur+4), int(maxCd)))
+			raise = true
+		}
+		span := 12
+		if ch.Cooldown > 0 {
+			span = int(ch.Cooldown) + 12
+			cur = ch.Cooldown
+		}
+		nf := gen.Range(rt, "nfollow", 0, 3)
+		if raise {
+			nf = gen.Range(rt, "nburst", 2*n+2, 4*n+6)
+		} else if ch.Cooldown > 0 || ch.MinDev > 0 {
+			nf = gen.Range(rt, "nfollow2", n, 2*n+2)
+		}
+		for i := 0; i < nf; i++ {
+			e := evt{At: gen.Range(rt, "foff", 0, span), Sig: i % n}
+			if gen.Chance(rt, "fdir", 1, 2) {
+				e.Dir = -1
+			}
+			switch gen.Pick(rt, "fkind", 70, 22, 8) {
+			case 0:
+				e.Kind = "dev"
+				e.Delta = gen.OneOf(rt, "fdelta", 0, 0, 1)
+			case 1:
+				e.Kind = "flip"
+				e.To = gen.OneOf(rt, "fto", stAvailable, stAvailable, stUnsupported, stUnavailable)
+			default:
+				e.Kind = "jump"
+			}
+			ch.Follow = append(ch.Follow, e)
+		}
+		sort.SliceStable(ch.Follow, func(i, j int) bool { return ch.Follow[i].At < ch.Follow[j].At })
+		c.Gov = append(c.Gov, ch)
+	}
 }
 
 // sanitize makes a hand-edited / replayed case executable and keeps it inside the stated preconditions.
@@ -294,6 +415,37 @@ func (c *loopCase) sanitize() {
 	}
 	for i := range c.SubPat {
 		clampI(&c.SubPat[i], -3, maxDelaySteps)
+	}
+	if len(c.Gov) > 6 {
+		c.Gov = c.Gov[:6]
+	}
+	for i := range c.Gov {
+		g := &c.Gov[i]
+		if g.At < 0 {
+			g.At = 0
+		}
+		if g.Cooldown != 0 {
+			clamp(&g.Cooldown, 1, c.MinI-10)
+		}
+		if g.Grace != 0 {
+			clamp(&g.Grace, 10, 600)
+		}
+		if g.MaxMul != 0 {
+			clamp(&g.MaxMul, 1, 10)
+		}
+		if g.MinDev != 0 {
+			clamp(&g.MinDev, 1, 3000)
+		}
+		if g.DevMul != 0 {
+			clamp(&g.DevMul, 1, 30)
+		}
+		clampI(&g.Quorum, 0, 3)
+		if len(g.Follow) > 64 {
+			g.Follow = g.Follow[:64]
+		}
+		for j := range g.Follow {
+			clampI(&g.Follow[j].At, 0, 600)
+		}
 	}
 }
 
@@ -503,8 +655,10 @@ func refDeviationBps(power, minDev, maxDev int64) int64 {
 // ---- run ---------------------------------------------------------------------------------------------------
 
 type flight struct {
-	prices      []feedstypes.SignalPrice
-	emitStep    int
+	prices       []feedstypes.SignalPrice
+	emitEpoch    int   // number of param changes the chain had gone through when the daemon decided
+	emitCooldown int64 // CooldownTime the daemon could see when it decided
+	emitStep     int
 	emitNow     time.Time
 	landStep    int
 	lost        bool
@@ -558,7 +712,7 @@ func runLoop(c loopCase) *pbt.Verdict {
 		vals[i].Tokens = 10_000_000
 	}
 	vals[0].Tokens = 1_000_000_000
-	ch, err := sim.New(sim.Config{NumAccounts: 1, Validators: vals, Feeds: &fp, Oracle: &op, FeedsVotes: []feedstypes.Vote{vote}, MintOff: true}, 0)
+	ch, err := sim.New(sim.Config{NumAccounts: 1, Validators: vals, Feeds: &fp, Oracle: &op, FeedsVotes: []feedstypes.Vote{vote}, MintOff: true, GovVoting: govVoting}, 0)
 	if err != nil {
 		v.Failf("C20/harness-setup", "sim.New: %v", err)
 		return v
@@ -668,6 +822,20 @@ func runLoop(c loopCase) *pbt.Verdict {
 		return -1000000
 	}
 	var pendingVotes []*feedstypes.MsgVote
+	// governance: one proposal at a time. idle -> (step >= At) submit tx in the next block -> yes votes in the block
+	// after -> executed by gov's end blocker in the first block at or after the end of the voting period.
+	const (
+		govIdle = iota
+		govSubmit
+		govVote
+		govWait
+	)
+	govIdx, govState, govPID := 0, govIdle, uint64(0)
+	paramEpoch := 0                // number of param changes committed so far
+	dynEvents := map[int][]evt{}   // follow-up events of a change, keyed by absolute step
+	prevCooldown := int64(-1)      // CooldownTime before the latest raise (-1: no raise so far)
+	var nParamChanges, nCooldownUp, nCooldownDown, nRaced, nWaitRaised, nWaitRaisedDev, nEarlierLowered, nGovFollow int64
+	var nOtherParam int64
 	nextBlockStep, blockIdx, subIdx, evIdx := 0, 0, 0, 0
 	var nStatusEmit, nDevEmit, nSlotEmit, nFirstEmit, nEmitted, nSubs, nLegitDeact, nVotesOK, nHeld int64
 	usedLarge := false
@@ -721,11 +889,7 @@ func runLoop(c loopCase) *pbt.Verdict {
 		}
 
 		// (a) events of this step
-		for ; evIdx < len(c.Events) && c.Events[evIdx].At <= k; evIdx++ {
-			e := c.Events[evIdx]
-			if e.At < k {
-				continue
-			}
+		applyEvent := func(e evt) {
 			id := sigID(((e.Sig % nsig) + nsig) % nsig)
 			s := svc.sigs[id]
 			base := s.price
@@ -804,6 +968,16 @@ func runLoop(c loopCase) *pbt.Verdict {
 				usedLarge = true
 			}
 		}
+		for ; evIdx < len(c.Events) && c.Events[evIdx].At <= k; evIdx++ {
+			if e := c.Events[evIdx]; e.At == k {
+				applyEvent(e)
+			}
+		}
+		for _, e := range dynEvents[k] {
+			applyEvent(e)
+			nGovFollow++
+		}
+		delete(dynEvents, k)
 
 		// (b) lost submissions are released (the submitter gave up)
 		for _, f := range flights {
@@ -841,7 +1015,7 @@ func runLoop(c loopCase) *pbt.Verdict {
 				sort.Strings(h.unmarked)
 				v.Failf("C20/handoff-unmarked", "step %d: submission handed to the submitter while %v not yet in the pending set", k, h.unmarked)
 			}
-			f := &flight{emitStep: k, emitNow: now}
+			f := &flight{emitStep: k, emitNow: now, emitEpoch: paramEpoch, emitCooldown: params.CooldownTime}
 			for _, p := range h.sub.SignalPrices {
 				if _, dup := emitted[p.SignalID]; dup {
 					v.Failf("C20/duplicate-in-submission", "step %d: signal %s twice in one submission", k, p.SignalID)
@@ -919,7 +1093,21 @@ func runLoop(c loopCase) *pbt.Verdict {
 				if !past {
 					v.Count("emitted_before_cooldown_buffer", 1) // decided by the chain (oracle 1)
 				}
+				if prevCooldown > params.CooldownTime && now.Before(time.Unix(T+prevCooldown+refTimeBuffer, 0)) {
+					nEarlierLowered++ // only the lowered cooldown lets the daemon submit this early
+				}
 				continue
+			}
+			if required && !inFlightBefore[s] && !past && prevCooldown >= 0 && prevCooldown < params.CooldownTime &&
+				!now.Before(time.Unix(T+prevCooldown+refTimeBuffer, 0)) && urgent {
+				// the cooldown in force before the raise would let the daemon submit now, the current one does not
+				slot := !now.Before(time.Unix(T+f.Interval*stmtSlotEnd/100, 0))
+				if statusChanged || dv == triYes {
+					nWaitRaisedDev++
+				}
+				if statusChanged || dv == triYes || slot {
+					nWaitRaised++
+				}
 			}
 			if !required || inFlightBefore[s] || !past {
 				continue
@@ -970,6 +1158,52 @@ func runLoop(c loopCase) *pbt.Verdict {
 			kinds = append(kinds, "vote")
 		}
 		pendingVotes = nil
+		paramsBefore := fk.GetParams(ch.Ctx())
+		if govState == govIdle && govIdx < len(c.Gov) && c.Gov[govIdx].At <= k {
+			govState = govSubmit
+		}
+		switch govState {
+		case govSubmit:
+			g := c.Gov[govIdx]
+			np := paramsBefore
+			if g.Cooldown > 0 {
+				np.CooldownTime = g.Cooldown
+			}
+			if g.Grace > 0 {
+				np.GracePeriod = g.Grace
+			}
+			if g.MaxMul > 0 {
+				np.MaxInterval = np.MinInterval * g.MaxMul
+			}
+			if g.MinDev > 0 {
+				np.MinDeviationBasisPoint = g.MinDev
+				if np.MaxDeviationBasisPoint < g.MinDev {
+					np.MaxDeviationBasisPoint = g.MinDev
+				}
+			}
+			if g.DevMul > 0 {
+				np.MaxDeviationBasisPoint = np.MinDeviationBasisPoint * g.DevMul
+			}
+			if g.Quorum > 0 {
+				np.PriceQuorum = []string{"0.30", "0.30", "0.5", "1"}[g.Quorum]
+			}
+			prop, perr := govv1.NewMsgSubmitProposal([]sdk.Msg{&feedstypes.MsgUpdateParams{Authority: sim.GovAuthority(), Params: np}},
+				sdk.NewCoins(sdk.NewInt64Coin("uband", 10)), ch.Vals[0].Addr.String(), "", "feeds params", "change", false)
+			if perr != nil {
+				v.Failf("C20/harness-setup", "cannot build the proposal: %v", perr)
+				break
+			}
+			txs = append(txs, ch.SignTx(ch.Vals[0], prop))
+			kinds = append(kinds, "gov-submit")
+		case govVote:
+			for _, val := range ch.Vals {
+				txs = append(txs, ch.SignTx(val, govv1.NewMsgVote(val.Addr, govPID, govv1.OptionYes, "")))
+				kinds = append(kinds, "gov-vote")
+			}
+		}
+		if v.Violation != "" {
+			break
+		}
 		for _, f := range flights {
 			if !f.lost && (f.landStep <= k || isUpdate) {
 				// block time within [emit-3s, emit+latency] by construction
@@ -999,6 +1233,27 @@ func runLoop(c loopCase) *pbt.Verdict {
 				} else {
 					v.Count("vote_rejected", 1)
 				}
+			case "gov-submit":
+				if tr.Code != 0 {
+					v.Failf("C20/harness-setup", "step %d: proposal refused: %s", k, firstLine(tr.Log))
+					break
+				}
+				for _, ev := range tr.Events {
+					if ev.Type == "submit_proposal" {
+						for _, a := range ev.Attributes {
+							if a.Key == "proposal_id" {
+								fmt.Sscan(a.Value, &govPID)
+							}
+						}
+					}
+				}
+				govState = govVote
+			case "gov-vote":
+				if tr.Code != 0 {
+					v.Failf("C20/harness-setup", "step %d: gov vote refused: %s", k, firstLine(tr.Log))
+					break
+				}
+				govState = govWait
 			case "submit":
 				f := landing[li]
 				li++
@@ -1006,6 +1261,14 @@ func runLoop(c loopCase) *pbt.Verdict {
 					v.Count("subs_accepted", 1)
 					for _, p := range f.prices {
 						landedStep[p.SignalID] = k
+					}
+				} else if f.emitEpoch < paramEpoch && f.emitCooldown < paramsBefore.CooldownTime &&
+					tr.Codespace == feedstypes.ModuleName && tr.Code == feedstypes.ErrPriceSubmitTooEarly.ABCICode() {
+					// decided on the params of the daemon's last poll, governance raised the cooldown before it landed:
+					// the daemon could not know. From its next tick on it sees the new params and gets no such excuse.
+					nRaced++
+					for _, p := range f.prices {
+						lastExcuse[p.SignalID] = k
 					}
 				} else if !stBefore.IsActive && tr.Codespace == feedstypes.ModuleName && tr.Code == feedstypes.ErrOracleStatusNotActive.ABCICode() {
 					// the validator was (excusably, or we would have failed already) deactivated while this was in flight
@@ -1032,6 +1295,38 @@ func runLoop(c loopCase) *pbt.Verdict {
 
 		// post-block bookkeeping
 		ctx2 := ch.Ctx()
+		if pa := fk.GetParams(ctx2); !pa.Equal(paramsBefore) {
+			// the change is committed with this block: the tick of step k+1 is the first that can see it
+			paramEpoch++
+			nParamChanges++
+			switch {
+			case pa.CooldownTime > paramsBefore.CooldownTime:
+				nCooldownUp++
+				prevCooldown = paramsBefore.CooldownTime
+			case pa.CooldownTime < paramsBefore.CooldownTime:
+				nCooldownDown++
+				prevCooldown = paramsBefore.CooldownTime
+			default:
+				nOtherParam++
+			}
+			if govState == govWait && govIdx < len(c.Gov) {
+				for _, e := range c.Gov[govIdx].Follow {
+					dynEvents[k+1+e.At] = append(dynEvents[k+1+e.At], e)
+				}
+				govIdx++
+				govState = govIdle
+			}
+		} else if govState == govWait {
+			if pr, perr := ch.App.GovKeeper.Proposals.Get(ctx2, govPID); perr == nil && pr.Status != govv1.StatusVotingPeriod && pr.Status != govv1.StatusDepositPeriod {
+				if pr.Status != govv1.StatusPassed {
+					v.Failf("C20/harness-setup", "step %d: proposal %d ended with status %s (%s)", k, govPID, pr.Status, pr.FailedReason)
+				} else {
+					v.Count("gov_passed_without_change", 1) // the proposed params equal the current ones
+					govIdx++
+					govState = govIdle
+				}
+			}
+		}
 		cf2 := fk.GetCurrentFeeds(ctx2)
 		now2 := map[string]bool{}
 		for _, f := range cf2.Feeds {
@@ -1061,8 +1356,19 @@ func runLoop(c loopCase) *pbt.Verdict {
 					}
 				}
 			}
-			grace := fk.GetParams(ctx2).GracePeriod
 			info := feedstypes.NewValidatorInfo(valAddr, 0, stBefore)
+			// the grace period the end blocker used is the current one unless governance changed it in this very block
+			// (the order of the two end blockers is not this check's business): take the one that explains the event
+			grace := fk.GetParams(ctx2).GracePeriod
+			if g0 := paramsBefore.GracePeriod; g0 != grace {
+				explained := false
+				for _, f := range cf2.Feeds {
+					explained = explained || feedskeeper.CheckMissReport(f, cf2.LastUpdateTimestamp, cf2.LastUpdateBlock, post[f.SignalID], info, res.Time, res.Height, grace)
+				}
+				if !explained {
+					grace = g0
+				}
+			}
 			var culprits, inexcusable []string
 			for _, f := range cf2.Feeds {
 				if feedskeeper.CheckMissReport(f, cf2.LastUpdateTimestamp, cf2.LastUpdateBlock, post[f.SignalID], info, res.Time, res.Height, grace) {
@@ -1117,6 +1423,23 @@ func runLoop(c loopCase) *pbt.Verdict {
 	cls(usedLarge, "price>=2^39")
 	cls(nVotesOK > 0, "feed-vote")
 	cls(nSubs == 0, "no-submission")
+	v.Count("param_changes", nParamChanges)
+	v.Count("cooldown_raised", nCooldownUp)
+	v.Count("cooldown_lowered", nCooldownDown)
+	v.Count("other_param_changed", nOtherParam)
+	v.Count("subs_raced_with_param_change", nRaced)
+	v.Count("steps_waiting_for_raised_cooldown", nWaitRaised)
+	v.Count("steps_waiting_for_raised_cooldown_deviation", nWaitRaisedDev)
+	v.Count("emitted_earlier_after_cooldown_lowered", nEarlierLowered)
+	v.Count("gov_follow_events", nGovFollow)
+	cls(nParamChanges > 0, "params-changed-mid-history")
+	cls(nCooldownUp > 0, "cooldown-raised")
+	cls(nCooldownDown > 0, "cooldown-lowered")
+	cls(nOtherParam > 0, "other-param-changed")
+	cls(nWaitRaisedDev > 0, "cooldown-raised-with-pending-deviation")
+	cls(nWaitRaised > 0, "cooldown-raised-with-pending-reason")
+	cls(nEarlierLowered > 0, "cooldown-lowered-and-used")
+	cls(nRaced > 0, "submission-raced-with-param-change")
 	v.Sample = map[string]any{"steps": c.Steps, "sigs": nsig, "min_interval": c.MinI, "cooldown": c.Cooldown, "submissions": nSubs,
 		"emit_status": nStatusEmit, "emit_deviation": nDevEmit, "emit_slot": nSlotEmit, "events": len(c.Events), "blocks": ch.Height}
 	return v
